@@ -8,16 +8,16 @@ namespace SSV.RelayLife
 open SSV.Gen
 
 def progsNatGeneric : Programs :=
-  { cleanup := C12.natGeneric_cleanup, init := C12.natGeneric_init, uplinkExit := C12.natGeneric_uplinkExit,
+  { cleanup := C12.natGeneric_cleanup, initCalls := C12.natGeneric_initCalls, initClosesNat := C12.natGeneric_initClosesNat, uplinkExit := C12.natGeneric_uplinkExit,
     uplinkTail := C12.natGeneric_uplinkTail, stop := C12.natGeneric_stop }
 def progsNatMmsg : Programs :=
-  { cleanup := C12.natMmsg_cleanup, init := C12.natMmsg_init, uplinkExit := C12.natMmsg_uplinkExit,
+  { cleanup := C12.natMmsg_cleanup, initCalls := C12.natMmsg_initCalls, initClosesNat := C12.natMmsg_initClosesNat, uplinkExit := C12.natMmsg_uplinkExit,
     uplinkTail := C12.natMmsg_uplinkTail, stop := C12.natMmsg_stop }
 def progsSessionGeneric : Programs :=
-  { cleanup := C12.sessionGeneric_cleanup, init := C12.sessionGeneric_init, uplinkExit := C12.sessionGeneric_uplinkExit,
+  { cleanup := C12.sessionGeneric_cleanup, initCalls := C12.sessionGeneric_initCalls, initClosesNat := C12.sessionGeneric_initClosesNat, uplinkExit := C12.sessionGeneric_uplinkExit,
     uplinkTail := C12.sessionGeneric_uplinkTail, stop := C12.sessionGeneric_stop }
 def progsSessionMmsg : Programs :=
-  { cleanup := C12.sessionMmsg_cleanup, init := C12.sessionMmsg_init, uplinkExit := C12.sessionMmsg_uplinkExit,
+  { cleanup := C12.sessionMmsg_cleanup, initCalls := C12.sessionMmsg_initCalls, initClosesNat := C12.sessionMmsg_initClosesNat, uplinkExit := C12.sessionMmsg_uplinkExit,
     uplinkTail := C12.sessionMmsg_uplinkTail, stop := C12.sessionMmsg_stop }
 
 def progsOf : String → Option Programs
